@@ -42,8 +42,8 @@ CONSTANTS
     SampleNum,  \* number of draws of SampleSpec
     Emit        \* print the cases?
 
-VARIABLES c, stage, aux
-vars == <<c, stage, aux>>
+VARIABLES c, stage
+vars == <<c, stage>>
 
 Thresholds(n) == (0..(n + 1)) \cap TSel
 
@@ -89,20 +89,16 @@ IsMutCompletion(s, s2) ==
     \E o \in [1..s.t -> {""} \cup SignedFields(s.f)] :
         s2 = [s EXCEPT !.sigs = [i \in 1..s.t |-> Sig("ok", s.signers[i], o[i])]]
 
-NoAux == [shape |-> "", len |-> 0]
-
 ----------------------------------------------------------------------------
 (* exhaustive enumeration: one seed per (flavour, n, t, signer list[, mut]), one step to every
    completion; seeds are spread over the TLC workers *)
 Init ==
     /\ stage = 0
-    /\ aux = NoAux
     /\ IF Domain = "base" THEN IsBaseSeed(c) ELSE IsMutSeed(c)
 
 Next ==
     /\ stage = 0
     /\ stage' = 1
-    /\ aux' = aux
     /\ IF c.mut = "" THEN IsBaseCompletion(c, c') ELSE IsMutCompletion(c, c')
 
 Spec == Init /\ [][Next]_vars
@@ -121,7 +117,6 @@ NearClassSeqs(f, n, len) ==
 
 SampleInit ==
     /\ stage = 1
-    /\ aux = NoAux
     /\ \E k \in 1..SampleNum : \E n \in Pick(NSet) : \E t \in Pick(Thresholds(n)) : \E f \in Pick(Flavours) :
        \E near \in Pick(IF GoodLists(n, t) = {} THEN {FALSE} ELSE {TRUE, FALSE}) :
        \E m \in Pick(0..(n + 1)) :
